@@ -521,6 +521,15 @@ func runScript(sc *script, r *res.Result) (string, string, int) {
 			case "near":
 				set("near", o.Ms)
 				mustWhy = "deadline"
+			case "zero-past": // a (redundant) clear first: the reader that parked before it must still be released
+				set("zero", 0)
+				set("past", 0)
+				mustWhy = "deadline"
+			case "far-zero-near":
+				set("far", 0)
+				set("zero", 0)
+				set("near", o.Ms)
+				mustWhy = "deadline"
 			case "deliver":
 				if !deliver() {
 					return "", "inconclusive: deliver not confirmed", i
@@ -594,7 +603,7 @@ func genScript(rng *rand.Rand, subj string) *script {
 		case k < 90:
 			sc.Ops = append(sc.Ops, op{K: "read"})
 		default:
-			sc.Ops = append(sc.Ops, op{K: "park", X: []string{"past", "near", "deliver", "near-zero-deliver", "far-deliver"}[rng.Intn(5)], Ms: 2 + rng.Intn(10)})
+			sc.Ops = append(sc.Ops, op{K: "park", X: []string{"past", "near", "deliver", "near-zero-deliver", "far-deliver", "zero-past", "far-zero-near"}[rng.Intn(7)], Ms: 2 + rng.Intn(10)})
 		}
 	}
 	// directed patterns
@@ -625,7 +634,7 @@ func main() {
 	flag.Parse()
 	_ = nshard
 	r := res.New("C10")
-	r.Rule = "scripts over {Set zero, Set past, Set near(+2..20ms), Set far(+1h), Idle 275ms, Deliver, Read, Park-then-{past,near,deliver,near+zero+deliver,far+deliver}} on six subjects (packetio.Buffer, dpipe, udp.Conn over loopback, udp.Conn whose listener has been closed, vnet UDPConn through a router, Bridge endpoint with a Tick loop); oracle: timeout legal iff a non-zero deadline in force during the read had passed; data illegal iff the deadline had observably passed before the call (set in the past, or >=200ms ago with a canary timer fired); a read that must be released (confirmed data / deadline passed >1s ago + canary) and is parked in the subject's Read (3 samples) is a violation; plus, on packetio.Buffer and dpipe, a phase that extends or clears a 300 us deadline at instants swept across its expiry and then reads a delivered message (a timeout is illegal however the race went); distinct = (subject, deadline kind, data pending, outcome) cells"
+	r.Rule = "scripts over {Set zero, Set past, Set near(+2..20ms), Set far(+1h), Idle 275ms, Deliver, Read, Park-then-{past,near,deliver,near+zero+deliver,far+deliver,zero+past,far+zero+near}} on six subjects (packetio.Buffer, dpipe, udp.Conn over loopback, udp.Conn whose listener has been closed, vnet UDPConn through a router, Bridge endpoint with a Tick loop); oracle: timeout legal iff a non-zero deadline in force during the read had passed; data illegal iff the deadline had observably passed before the call (set in the past, or >=200ms ago with a canary timer fired); a read that must be released (confirmed data / deadline passed >1s ago + canary) and is parked in the subject's Read (3 samples) is a violation; plus, on packetio.Buffer and dpipe, a phase that extends or clears a 300 us deadline at instants swept across its expiry and then reads a delivered message (a timeout is illegal however the race went); distinct = (subject, deadline kind, data pending, outcome) cells"
 	r.Assumptions = []string{"interval reasoning on stamps taken before the call and after the return; scheduling delay can only make a legal timeout look later, never earlier", "reads that start within 200ms after a near deadline are unconstrained (expiry is delivered by a runtime timer)"}
 	if *replay != "" {
 		b, _ := os.ReadFile(*replay)
